@@ -264,10 +264,13 @@ def case_line(case):
     return " ".join(str(x) for x in case)
 
 
-def _run_sharded(exe, lines, nshards=NPROC, timeout=3600, env=None):
+def _run_sharded(exe, lines, nshards=NPROC, timeout=3600, env=None, per_shard=200):
+    """per_shard: minimum number of cases worth a process of its own (modules with expensive
+    cases lower it through CASES_PER_SHARD, see runner.Ctx)"""
     if not lines:
         return []
-    nshards = max(1, min(nshards, (len(lines) + 199) // 200))
+    per_shard = max(1, per_shard)
+    nshards = max(1, min(nshards, (len(lines) + per_shard - 1) // per_shard))
     chunks = [lines[i::nshards] for i in range(nshards)]
     outs = [None] * nshards
     errs = []
